@@ -116,6 +116,19 @@ BINARY = {
     'divmod': divmod, 'lt': operator.lt, 'le': operator.le, 'gt': operator.gt, 'ge': operator.ge, 'eq': operator.eq,
     'ne': operator.ne,
 }
+def _inplace(opfn):
+    """x op= y with a second reference to x kept around: returns (x afterwards, the other reference afterwards)."""
+    def f(x, y):
+        keep = x
+        x = opfn(x, y)
+        return (x, keep)
+    return f
+
+
+INPLACE = {'iadd': _inplace(operator.iadd), 'isub': _inplace(operator.isub), 'imul': _inplace(operator.imul), 'ifloordiv': _inplace(operator.ifloordiv),
+           'imod': _inplace(operator.imod), 'iand': _inplace(operator.iand), 'ior': _inplace(operator.ior), 'ixor': _inplace(operator.ixor),
+           'itruediv': _inplace(operator.itruediv), 'ilshift': _inplace(operator.ilshift), 'irshift': _inplace(operator.irshift), 'ipow': _inplace(operator.ipow)}
+IMMUTABLE = (int, float, complex, str, bytes, tuple, bool, frozenset, type(None), range)
 # container-style operations: proxy is the container ('left') or container and operand ('both')
 CONTAINER = {
     'contains': lambda x, y: y in x,
@@ -237,7 +250,7 @@ def run_op(fn, args):
         return ('raise', e)
 
 
-HEAVY = ('mul', 'pow', 'lshift', 'pow3', 'range', 'str_mul_r', 'matmul', 'format_spec', 'round_n', 'math_sqrt')
+HEAVY = ('mul', 'pow', 'lshift', 'imul', 'ipow', 'ilshift', 'pow3', 'range', 'str_mul_r', 'matmul', 'format_spec', 'round_n', 'math_sqrt')
 
 
 def _huge(v, depth=0):
@@ -268,7 +281,13 @@ def judge(case):
     if (op == 'isinstance_own' and a_src == 'Masked()') or (op == 'isinstance_other' and a_src == 'Masked()' and b_src == 'Masked()'):
         # isinstance(x, type(x)) succeeds through the type() shortcut, which no proxy can imitate once __class__ names another class
         return Result([], False, ['skipped-type-shortcut'])
-    if op in BINARY:
+    if op in INPLACE:
+        # augmented assignment through one of two references to the same result; only immutable values: there x op= y rebinds x and
+        # the other reference keeps the old value (a mutable real value would be changed in place and poison the shared operand tables)
+        if type(real_of(a_src)) not in IMMUTABLE:
+            return Result([], False, ['skipped-mutable-inplace'])
+        fn, arity = INPLACE[op], 2
+    elif op in BINARY:
         fn, arity = BINARY[op], 2
     elif op in CONTAINER:
         fn, arity = CONTAINER[op], 2
@@ -324,7 +343,7 @@ def judge(case):
             merged.append(V(ROOT, first.msg))
         viol = merged
     nontrivial = real[0] == 'ok' or not isinstance(real[1], TypeError)
-    classes = ['family=' + ('binary' if op in BINARY else 'container' if op in CONTAINER else 'unary'),
+    classes = ['family=' + ('inplace' if op in INPLACE else 'binary' if op in BINARY else 'container' if op in CONTAINER else 'unary'),
                'placement=' + place, 'real=' + ('ok' if real[0] == 'ok' else type(real[1]).__name__)]
     return Result(viol, nontrivial, classes)
 
@@ -333,6 +352,10 @@ def table(tier):
     for op in BINARY:
         for a, b in itertools.product(VALUES, VALUES):
             for place in ('left', 'right', 'both'):
+                yield {'op': op, 'a': a, 'b': b, 'place': place}
+    for op in INPLACE:
+        for a, b in itertools.product(VALUES, VALUES):
+            for place in ('left', 'both'):
                 yield {'op': op, 'a': a, 'b': b, 'place': place}
     for op in CONTAINER:
         seconds = SPEC_VALUES if op in ('format_spec', 'round_n') else VALUES
